@@ -6,6 +6,8 @@ except ImportError:
     import pickle
 
 
+import copy
+
 import numpy as np
 
 
@@ -93,8 +95,12 @@ class FitInfoFile(object):
                     info.meta = self._first_meta
                     yield info
         else:
+            # Yield shallow copies so that consumers that call keep() (which
+            # rebinds the per-fit arrays) do not modify the caller's objects
             for info in self._fits:
-                yield info
+                info_copy = copy.copy(info)
+                info_copy.meta = info.meta
+                yield info_copy
 
 
 class FitInfoMeta(object):
